@@ -195,6 +195,7 @@ func c08IPListener(r *simcore.Run, tp *simcore.Tape) map[string]any {
 	})
 	c08Finish(r, "ip-listener")
 	r.Count("crafted", int64(crafted))
+	r.FaultN("hostile-input", int64(crafted))
 	return map[string]any{"crafted": crafted, "sentinels_answered": sentinels}
 }
 
@@ -386,6 +387,7 @@ func c08SCIONListener(r *simcore.Run, tp *simcore.Tape) map[string]any {
 	})
 	c08Finish(r, "scion-listener")
 	r.Count("crafted", int64(crafted))
+	r.FaultN("hostile-input", int64(crafted))
 	return map[string]any{"crafted": crafted, "sentinels_answered": sentinels, "auth": auth}
 }
 
@@ -468,6 +470,7 @@ func c08CSPTPListener(r *simcore.Run, tp *simcore.Tape) map[string]any {
 	})
 	c08Finish(r, "csptp-listener")
 	r.Count("crafted", int64(crafted))
+	r.FaultN("hostile-input", int64(crafted))
 	return map[string]any{"crafted": crafted, "sentinels_consumed": sentinels}
 }
 
@@ -548,6 +551,7 @@ func c08KEServer(r *simcore.Run, tp *simcore.Tape) map[string]any {
 	})
 	c08Finish(r, "ntske-server")
 	r.Count("crafted", int64(crafted))
+	r.FaultN("hostile-input", int64(crafted))
 	return map[string]any{"hostile_connections": crafted, "sentinel_exchanges": sentinels}
 }
 
@@ -623,6 +627,7 @@ func c08IPClient(r *simcore.Run, tp *simcore.Tape) map[string]any {
 	})
 	c08Finish(r, "ip-client")
 	r.Count("crafted", int64(crafted))
+	r.FaultN("hostile-input", int64(crafted))
 	return map[string]any{"hostile_responses": crafted, "measurements_ok": ok, "nts": useNTS}
 }
 
@@ -710,6 +715,7 @@ func c08SCIONClient(r *simcore.Run, tp *simcore.Tape) map[string]any {
 	})
 	c08Finish(r, "scion-client")
 	r.Count("crafted", int64(crafted))
+	r.FaultN("hostile-input", int64(crafted))
 	return map[string]any{"hostile_responses": crafted, "measurements_ok": ok, "auth": auth}
 }
 
@@ -821,6 +827,7 @@ func c08CSPTPClient(r *simcore.Run, tp *simcore.Tape) map[string]any {
 	})
 	c08Finish(r, "csptp-client")
 	r.Count("crafted", int64(crafted))
+	r.FaultN("hostile-input", int64(crafted))
 	return map[string]any{"hostile_responses": crafted}
 }
 
@@ -895,6 +902,7 @@ func c08KEClient(r *simcore.Run, tp *simcore.Tape) map[string]any {
 	})
 	c08Finish(r, "ntske-client")
 	r.Count("crafted", int64(crafted))
+	r.FaultN("hostile-input", int64(crafted))
 	return map[string]any{"hostile_exchanges": crafted}
 }
 
